@@ -111,12 +111,19 @@ class Stats:
 
 
 _MOD = None
+_HISTORY = []          # shards this (long-lived) worker process has run so far
 
 
 def _worker(arg):
     idx, shard = arg
     try:
+        _HISTORY.append(shard)
         st = _MOD.run_shard(shard)
+        # a failure may depend on what this process did before (caches, class
+        # attributes ...): the shards run so far are its replayable history
+        for lst in st.fails.values():
+            for f in lst:
+                f["history"] = list(_HISTORY)
         return idx, st, None
     except BaseException:     # pylint: disable=broad-except
         return idx, None, traceback.format_exc()
@@ -291,12 +298,35 @@ def write_evidence(mod, tier, seed, stats, bounds, wall, n_viol, known_counts,
     return path
 
 
-def write_replay(mod, failure):
+def as_tuples(x):
+    if isinstance(x, (list, tuple)):
+        return tuple(as_tuples(i) for i in x)
+    return x
+
+
+def replay_history(mod, doc):
+    """Re-run, in this fresh process, the shards the reporting worker had run
+    up to and including the failing one; -> the same failure or None."""
+    shards, _ = mod.plan(doc.get("tier") or "quick")
+    known = {digest(sh): sh for sh in shards}
+    want = digest([doc["cls"], doc["case"]])
+    for sh in doc["history"]:
+        sh = known.get(digest(sh), as_tuples(sh))
+        st = mod.run_shard(sh)
+        for lst in st.fails.values():
+            for f in lst:
+                if digest([f["cls"], f["case"]]) == want:
+                    return f
+    return None
+
+
+def write_replay(mod, failure, tier=None):
     os.makedirs(os.path.join(VERIF, "replays"), exist_ok=True)
     name = "%s-%s.json" % (mod.ID, digest([failure["cls"], failure["case"]]))
     path = os.path.join(VERIF, "replays", name)
     doc = dict(failure)
     doc["property_id"] = mod.ID
+    doc["tier"] = tier
     if hasattr(mod, "repro"):
         try:
             doc["repro_py"] = mod.repro(failure["case"])
